@@ -48,6 +48,20 @@ def run(ctx):
             vlib.report_violation(ctx, "case not allowed by the specification %s: %s" % (sig, r["history"][0][:300]), r["history"])
         else:
             ctx.violations.append({"what": "same signature %s" % (sig,), "replay": None})
+    # extension beyond the listed property: the datasource's DefaultPropertyHandler (convert, compare with the last
+    # property, update) composed with RuleManager.tla; a mismatch is recorded in the evidence, it is not a
+    # violation of C18
+    try:
+        vlib.model_check(ctx, "MC_PropertyHandler", "MC_PropertyHandler.cfg", workers=4, timeout=600)
+        pb = ctx.path("ph.jsonl")
+        n = vlib.generate(ctx, "MC_PropertyHandler", "Gen_PropertyHandler.cfg", pb, workers=4, timeout=900, limit=2500 if q else 40000, tag="ph")
+        vlib.vh(ctx, ["prop-replay", "--in", pb, "--out", ctx.path("ph.ndjson")], binary=VHDS, timeout=1200)
+        prej = vlib.validate_traces(ctx, "Trace_PropertyHandler", "Trace_PropertyHandler.cfg", ctx.path("ph.ndjson"), "prophandler")
+        ctx.notes["extension_property_handler"] = {"behaviours_replayed": n, "rejected": len(prej),
+                                                   "first_rejected": (prej[0]["history"][prej[0]["at"] - 1][:300] if prej else None)}
+        ctx.behaviours += n
+    except vlib.ToolError as e:
+        ctx.notes["extension_property_handler"] = {"tool_error": str(e)}
     # byte-level robustness is outside what the specification expresses: truncation at every byte and random
     # corruption must give an error (or a rule), never a panic - the oracle is trivial and stated here
     txt = vlib.vh(ctx, ["codec-fuzz", "--seed", ctx.seed, "--n", 300 if q else 20000], binary=VHDS, timeout=3000)
